@@ -30,7 +30,7 @@ add("C19", "pure", "exploration",
 add("C09", "pure", "exploration",
     "property-based testing (rapid) against an independent reference interpreter of the template/Sprintf language; exhaustive small-scope enumeration; native go fuzz targets in thorough",
     "Generated trees of snippet constructors are rendered through the real SnippetWriter and through a reference interpreter written from the statement; "
-    "output must match (with three stated leniencies) and panic/no-panic must agree. All formats up to a length bound over a 6-symbol alphabet are enumerated exhaustively.",
+    "output must match (with three stated leniencies) and panic/no-panic must agree; a rendering that is still recursing more than 5000 frames deep is reported as runaway recursion. All formats up to a length bound over a 6-symbol alphabet are enumerated exhaustively.",
     "Trusts the harness reference interpreter (about 120 lines); Go-nil snippets, surplus Sprintf arguments and invalid UTF-8 formats are not generated.",
     "DESIGN.md section 3, C09")
 
@@ -71,7 +71,7 @@ add("C07", "pipe", "exploration",
     "property-based testing (rapid): byte snapshots of the whole module tree before/after each run of generated run histories",
     "Modules with user files, look-alike names, stale and previous outputs, README and old gengo.sum (some with a nested module or a second go.work workspace module) are run 1-3 times with varying generator sets/behaviours, "
     "entrypoint subsets and All/Force; every changed path must be <base>.* directly inside a processed package or gengo.sum (only with All); per generator the "
-    "file exists iff it rendered, ErrIgnore-and-nothing keeps the previous bytes, stale <base>.*.go files are gone.",
+    "file exists iff it rendered, ErrIgnore-and-nothing keeps the previous bytes, stale <base>.*.go files are gone. A sameexecutor sub makes 2-4 Execute calls with changing generator sets on one Executor.",
     "Cache skips in All-without-Force runs are observed (no generator call), not modelled here (C08 models them).",
     "DESIGN.md section 3, C07")
 
